@@ -44,6 +44,19 @@ class Opaque:
 _UNKNOWN = object()
 
 
+def _lit_ast(v):
+    """literal AST of a table value made of constants (tuples, dicts); None if it holds function references"""
+    if v is None or isinstance(v, (str, int, float, bool)):
+        return ast.Constant(value=v)
+    if isinstance(v, tuple):
+        el = [_lit_ast(x) for x in v]
+        return None if any(e is None for e in el) else ast.Tuple(elts=el, ctx=ast.Load())
+    if isinstance(v, dict):
+        ks, vs = [_lit_ast(k) for k in v], [_lit_ast(x) for x in v.values()]
+        return None if any(e is None for e in ks + vs) else ast.Dict(keys=ks, values=vs)
+    return None
+
+
 def _u(e):
     return " ".join(ast.unparse(e).split())
 
@@ -249,6 +262,11 @@ class Specialiser:
                     v = env[n.id]
                     if v is None or isinstance(v, (str, int, float, bool)):
                         return ast.copy_location(ast.Constant(value=v), n)
+                    if isinstance(v, (tuple, dict)):
+                        lit_ = _lit_ast(v)
+                        if lit_ is None:
+                            raise GiveUp()
+                        return ast.copy_location(lit_, n)
                     if isinstance(v, Opaque):
                         return copy.deepcopy(v.node)
                     if isinstance(v, FRef) and n.id not in sp._call_positions:
@@ -347,6 +365,14 @@ class Specialiser:
             v = self.value(s.value, env, assume)
             s2 = copy.copy(s)
             s2.value = self.residual(s.value, env, assume)
+            if isinstance(s.targets[0], (ast.Subscript, ast.Attribute)):
+                t2 = copy.deepcopy(s.targets[0])
+                if isinstance(t2, ast.Subscript):
+                    t2.slice = self.residual(t2.slice, env, assume)
+                    t2.value = self.residual(t2.value, env, assume)
+                else:
+                    t2.value = self.residual(t2.value, env, assume)
+                s2.targets = [t2]
             self._kill([s], env)
             if v is not _UNKNOWN and isinstance(s.targets[0], (ast.Name, ast.Tuple)):
                 try:
@@ -443,6 +469,11 @@ class Specialiser:
             s2 = copy.copy(s)
             if getattr(s, "value", None) is not None:
                 s2.value = self.residual(s.value, env, assume)
+            if isinstance(s, (ast.AugAssign, ast.AnnAssign)) and isinstance(s.target, ast.Subscript):
+                t2 = copy.deepcopy(s.target)
+                t2.slice = self.residual(t2.slice, env, assume)
+                t2.value = self.residual(t2.value, env, assume)
+                s2.target = t2
             self._kill([s], env)
             return [s2], "next"
         if isinstance(s, (ast.With, ast.Try)):
